@@ -1,8 +1,882 @@
-//! stub (to be implemented)
-#![allow(dead_code, unused_variables)]
-use crate::common::*;
+//! E5 `net` — the real server as a deterministic event system (DESIGN §5 E5).
+//! Serves C06, C10, C11, C15, C16.
+//!
+//! `net::Config::async_server(GateKv(handle), shutdown)` + `Server::run()` run on a current-thread
+//! tokio runtime in a thread the harness owns. Every store call of the server goes through
+//! `GateKv`, which can hold it before and after the real call; the server thread's `epoll_wait`
+//! is bracketed by an idle marker; server-side `recv` obeys a segmentation script.
+
+use std::collections::BTreeMap;
+use std::io::{Read, Write};
+use std::net::{Shutdown as NetShutdown, TcpStream};
+use std::path::{Path, PathBuf};
+use std::sync::atomic::{AtomicBool, AtomicU64, Ordering};
+use std::sync::{Arc, Condvar, Mutex};
+use std::time::{Duration, Instant};
+
+use bitcask::storage::bitcask::{Bitcask, Config, Handle, VerifMergePolicy};
+use bitcask::storage::KeyValueStorage;
+use bytes::Bytes;
 use serde_json::{json, Value};
-pub fn worker(job: &Job) -> Shard { Shard::default() }
-pub fn replay(prop: &str, case: &Value) -> Vec<Violation> { vec![] }
-pub fn report_meta(prop: &str, tier: Tier) -> (String, Value, Vec<String>) { (String::new(), json!({}), vec![]) }
-pub fn child_server(args: &[String]) -> i32 { 0 }
+
+use crate::common::*;
+use crate::iohook;
+use crate::model::{cmd, resp_decode, resp_encode, resp_split, Kv, LEvent, LOp, LRes, RErr, RFrame};
+
+// ---------------------------------------------------------------------------------------------
+// the gate
+
+#[derive(Clone, Debug)]
+pub struct OpRec {
+    pub desc: String,
+    pub lop: LOp,
+    pub released_before: bool,
+    pub entered: u64,
+    pub done: bool,
+    pub exited: u64,
+    pub released_after: bool,
+    pub result: Option<LRes>,
+}
+
+#[derive(Default)]
+pub struct GState {
+    pub gated: bool,
+    pub ops: Vec<OpRec>,
+    /// panic in the n-th `clone()` from now (1 = the next one); 0 = disarmed
+    pub clone_panic_in: usize,
+    pub clones: usize,
+    pub inflight: usize,
+}
+
+pub struct Gate {
+    pub m: Mutex<GState>,
+    pub cv: Condvar,
+}
+
+pub static SEQ: AtomicU64 = AtomicU64::new(1);
+fn stamp() -> u64 {
+    SEQ.fetch_add(1, Ordering::SeqCst)
+}
+
+pub struct GateKv {
+    inner: Handle,
+    gate: Arc<Gate>,
+}
+
+impl Clone for GateKv {
+    fn clone(&self) -> Self {
+        let mut st = self.gate.m.lock().unwrap();
+        st.clones += 1;
+        if st.clone_panic_in > 0 {
+            st.clone_panic_in -= 1;
+            if st.clone_panic_in == 0 {
+                drop(st);
+                panic!("armed panic in KeyValueStorage::clone (handler task)");
+            }
+        }
+        drop(st);
+        GateKv { inner: self.inner.clone(), gate: self.gate.clone() }
+    }
+}
+
+impl GateKv {
+    fn around<R>(&self, desc: String, lop: LOp, f: impl FnOnce(&Handle) -> Result<R, bitcask::storage::bitcask::Error>, to_res: impl Fn(&R) -> LRes) -> Result<R, bitcask::storage::bitcask::Error> {
+        let g = &self.gate;
+        let id;
+        {
+            let mut st = g.m.lock().unwrap();
+            id = st.ops.len();
+            let gated = st.gated;
+            st.ops.push(OpRec { desc, lop, released_before: !gated, entered: 0, done: false, exited: 0, released_after: !gated, result: None });
+            st.inflight += 1;
+            g.cv.notify_all();
+            while !st.ops[id].released_before {
+                st = g.cv.wait(st).unwrap();
+            }
+            st.ops[id].entered = stamp();
+        }
+        let r = f(&self.inner);
+        {
+            let mut st = g.m.lock().unwrap();
+            st.ops[id].exited = stamp();
+            st.ops[id].done = true;
+            st.ops[id].result = Some(match &r {
+                Ok(v) => to_res(v),
+                Err(_) => LRes::Pending,
+            });
+            g.cv.notify_all();
+            while !st.ops[id].released_after {
+                st = g.cv.wait(st).unwrap();
+            }
+            st.inflight -= 1;
+            g.cv.notify_all();
+        }
+        r
+    }
+}
+
+impl KeyValueStorage for GateKv {
+    type Error = bitcask::storage::bitcask::Error;
+    fn set(&self, k: Bytes, v: Bytes) -> Result<(), Self::Error> {
+        self.around(format!("set {} {}", hex(&k), hex(&v)), LOp::Set(k.to_vec(), v.to_vec()), |h| h.set(k.clone(), v.clone()), |_| LRes::Unit)
+    }
+    fn get(&self, k: Bytes) -> Result<Option<Bytes>, Self::Error> {
+        self.around(format!("get {}", hex(&k)), LOp::Get(k.to_vec()), |h| h.get(k.clone()), |v| LRes::Val(v.as_ref().map(|x| x.to_vec())))
+    }
+    fn del(&self, k: Bytes) -> Result<bool, Self::Error> {
+        self.around(format!("del {}", hex(&k)), LOp::Del(k.to_vec()), |h| h.del(k.clone()), |b| LRes::Bool(*b))
+    }
+}
+
+impl Gate {
+    pub fn n_ops(&self) -> usize {
+        self.m.lock().unwrap().ops.len()
+    }
+    pub fn snapshot(&self) -> Vec<OpRec> {
+        self.m.lock().unwrap().ops.clone()
+    }
+    /// Wait until at least `n` operations have arrived at the gate.
+    pub fn wait_arrivals(&self, n: usize, timeout: Duration) -> bool {
+        let t0 = Instant::now();
+        let mut st = self.m.lock().unwrap();
+        while st.ops.len() < n {
+            let left = timeout.checked_sub(t0.elapsed());
+            let Some(left) = left else { return false };
+            st = self.cv.wait_timeout(st, left).unwrap().0;
+        }
+        true
+    }
+    pub fn release_before(&self, id: usize) {
+        let mut st = self.m.lock().unwrap();
+        st.ops[id].released_before = true;
+        self.cv.notify_all();
+    }
+    pub fn wait_done(&self, id: usize, timeout: Duration) -> bool {
+        let t0 = Instant::now();
+        let mut st = self.m.lock().unwrap();
+        while !st.ops[id].done {
+            let Some(left) = timeout.checked_sub(t0.elapsed()) else { return false };
+            st = self.cv.wait_timeout(st, left).unwrap().0;
+        }
+        true
+    }
+    pub fn release_after(&self, id: usize) {
+        let mut st = self.m.lock().unwrap();
+        st.ops[id].released_after = true;
+        self.cv.notify_all();
+    }
+    /// New arrivals are no longer held (operations already at the gate stay where they are).
+    pub fn ungate_new_arrivals(&self) {
+        let mut st = self.m.lock().unwrap();
+        st.gated = false;
+        // operations that arrived but were never touched by the scenario stay held; only later ones pass
+        self.cv.notify_all();
+    }
+    pub fn release_all(&self) {
+        let mut st = self.m.lock().unwrap();
+        st.gated = false;
+        for o in st.ops.iter_mut() {
+            o.released_before = true;
+            o.released_after = true;
+        }
+        self.cv.notify_all();
+    }
+    pub fn inflight(&self) -> usize {
+        self.m.lock().unwrap().inflight
+    }
+    pub fn clones(&self) -> usize {
+        self.m.lock().unwrap().clones
+    }
+    pub fn wait_clones(&self, n: usize, timeout: Duration) -> bool {
+        let t0 = Instant::now();
+        while self.clones() < n {
+            if t0.elapsed() > timeout {
+                return false;
+            }
+            std::thread::sleep(Duration::from_micros(50));
+        }
+        true
+    }
+    pub fn arm_clone_panic(&self, nth: usize) {
+        self.m.lock().unwrap().clone_panic_in = nth;
+    }
+}
+
+// ---------------------------------------------------------------------------------------------
+// server life cycle
+
+pub struct Srv {
+    pub port: u16,
+    pub gate: Arc<Gate>,
+    shutdown_tx: Option<tokio::sync::oneshot::Sender<()>>,
+    thread: Option<std::thread::JoinHandle<()>>,
+    pub run_returned: Arc<AtomicBool>,
+    pub kv: Option<Bitcask>,
+    pub handle: Handle,
+    pub dir: PathBuf,
+}
+
+pub struct SrvCfg {
+    pub max_connections: usize,
+    pub max_file_size: u64,
+    pub gated: bool,
+}
+
+impl Srv {
+    pub fn start(dir: &Path, cfg: &SrvCfg) -> Result<Srv, String> {
+        rmrf(dir);
+        std::fs::create_dir_all(dir).unwrap();
+        let mut c = Config::default();
+        c.path(dir).concurrency(4).max_file_size(cfg.max_file_size).merge_policy(VerifMergePolicy::Never);
+        c.merge_threshold_small_file(u64::MAX);
+        let kv = c.open().map_err(|e| format!("open store: {}", e))?;
+        let handle = kv.get_handle();
+        for attempt in 0..60 {
+            // server ports come from a private range below the ephemeral range (32768..), spread by
+            // process id so that concurrent workers / checks rarely meet; a busy port is skipped
+            static NEXT: AtomicU64 = AtomicU64::new(0);
+            let k = NEXT.fetch_add(1, Ordering::SeqCst);
+            let port = 10_000 + ((std::process::id() as u64 * 7919 + k) % 22_000) as u16;
+            let gate = Arc::new(Gate { m: Mutex::new(GState { gated: cfg.gated, ..Default::default() }), cv: Condvar::new() });
+            let (tx, rx) = tokio::sync::oneshot::channel::<()>();
+            let w = GateKv { inner: handle.clone(), gate: gate.clone() };
+            let run_returned = Arc::new(AtomicBool::new(false));
+            let rr = run_returned.clone();
+            let started = Arc::new((Mutex::new(None::<Result<(), String>>), Condvar::new()));
+            let st2 = started.clone();
+            let maxc = cfg.max_connections;
+            let thread = std::thread::Builder::new()
+                .name("vh-server".into())
+                .spawn(move || {
+                    iohook::mark_server_thread(true);
+                    let rt = tokio::runtime::Builder::new_current_thread().enable_all().build().unwrap();
+                    rt.block_on(async move {
+                        let mut nc = bitcask::net::Config::default();
+                        nc.host = "127.0.0.1".parse().unwrap();
+                        nc.port = port;
+                        nc.max_connections = maxc;
+                        nc.min_backoff_ms = 1;
+                        nc.max_backoff_ms = 2;
+                        match nc.async_server(w, async move { let _ = rx.await; }).await {
+                            Ok(srv) => {
+                                *st2.0.lock().unwrap() = Some(Ok(()));
+                                st2.1.notify_all();
+                                srv.run().await;
+                            }
+                            Err(e) => {
+                                *st2.0.lock().unwrap() = Some(Err(e.to_string()));
+                                st2.1.notify_all();
+                            }
+                        }
+                    });
+                    rr.store(true, Ordering::SeqCst);
+                    drop(rt);
+                    iohook::mark_server_thread(false);
+                })
+                .map_err(|e| e.to_string())?;
+            let res = {
+                let mut g = started.0.lock().unwrap();
+                while g.is_none() {
+                    g = started.1.wait(g).unwrap();
+                }
+                g.clone().unwrap()
+            };
+            match res {
+                Ok(()) => {
+                    let mut s = Srv { port, gate, shutdown_tx: Some(tx), thread: Some(thread), run_returned, kv: Some(kv), handle, dir: dir.to_path_buf() };
+                    s.wait_idle_once();
+                    return Ok(s);
+                }
+                Err(e) => {
+                    let _ = thread.join();
+                    if attempt == 59 {
+                        return Err(format!("server start failed: {}", e));
+                    }
+                }
+            }
+        }
+        unreachable!()
+    }
+
+    fn wait_idle_once(&mut self) {
+        let t0 = Instant::now();
+        while !iohook::srv_idle() && t0.elapsed() < Duration::from_secs(5) {
+            std::thread::yield_now();
+        }
+    }
+
+    pub fn connect(&self) -> std::io::Result<TcpStream> {
+        let mut last = None;
+        for _ in 0..200 {
+            match TcpStream::connect(("127.0.0.1", self.port)) {
+                Ok(s) => {
+                    s.set_nodelay(true)?;
+                    return Ok(s);
+                }
+                // ephemeral port pressure (many short connections): wait for TIME_WAIT reuse
+                Err(e) if matches!(e.raw_os_error(), Some(libc::EADDRNOTAVAIL) | Some(libc::EADDRINUSE)) => {
+                    last = Some(e);
+                    std::thread::sleep(Duration::from_millis(5));
+                }
+                Err(e) => return Err(e),
+            }
+        }
+        Err(last.unwrap())
+    }
+
+    pub fn fire_shutdown(&mut self) {
+        if let Some(tx) = self.shutdown_tx.take() {
+            let _ = tx.send(());
+        }
+    }
+
+    /// Wait until `run()` has returned.
+    pub fn wait_returned(&self, timeout: Duration) -> bool {
+        let t0 = Instant::now();
+        while !self.run_returned.load(Ordering::SeqCst) {
+            if t0.elapsed() > timeout {
+                return false;
+            }
+            std::thread::sleep(Duration::from_micros(50));
+        }
+        true
+    }
+
+    /// Is the server thread still alive (it dies with a panic that escapes `run()`)?
+    pub fn thread_finished(&self) -> bool {
+        self.thread.as_ref().map_or(true, |t| t.is_finished())
+    }
+
+    /// Quiescence: server thread idle with a newer epoch than `e0`, no store call between its
+    /// gates, and the same still true after a short stability window.
+    pub fn quiesce(&self, e0: u64) -> bool {
+        let t0 = Instant::now();
+        // phase 1: an event that reaches the server wakes it at once (loopback delivery is synchronous);
+        // if its epoch has not moved within a grace period the event did not concern it
+        while iohook::srv_epoch() <= e0 && t0.elapsed() < Duration::from_micros(2500) {
+            if !iohook::srv_idle() {
+                break;
+            }
+            std::thread::sleep(Duration::from_micros(50));
+        }
+        let e0 = if iohook::srv_epoch() <= e0 && iohook::srv_idle() { e0.saturating_sub(1) } else { e0 };
+        loop {
+            if t0.elapsed() > Duration::from_secs(10) {
+                return false;
+            }
+            if self.thread_finished() {
+                return true;
+            }
+            let running_free = {
+                let st = self.gate.m.lock().unwrap();
+                // held = waiting at the gate before the store, or after it; everything else that has
+                // arrived and not yet left is running free
+                let held = st.ops.iter().filter(|o| !o.released_before || (o.done && !o.released_after)).count();
+                st.inflight > held
+            };
+            if iohook::srv_idle() && iohook::srv_epoch() > e0 && !running_free {
+                let e1 = iohook::srv_epoch();
+                let n1 = self.gate.n_ops();
+                std::thread::sleep(Duration::from_micros(400));
+                if iohook::srv_idle() && iohook::srv_epoch() == e1 && self.gate.n_ops() == n1 {
+                    return true;
+                }
+            } else {
+                std::thread::sleep(Duration::from_micros(30));
+            }
+        }
+    }
+
+    pub fn epoch(&self) -> u64 {
+        iohook::srv_epoch()
+    }
+
+    /// Shut the server down and release everything. Returns false if `run()` did not return.
+    pub fn stop(mut self) -> bool {
+        self.gate.release_all();
+        self.fire_shutdown();
+        let ok = self.wait_returned(Duration::from_secs(6));
+        if ok {
+            if let Some(t) = self.thread.take() {
+                let _ = t.join();
+            }
+        }
+        self.kv = None;
+        ok
+    }
+
+    pub fn store_contents(&self, keys: &[Vec<u8>]) -> Kv {
+        let mut m = Kv::new();
+        for k in keys {
+            if let Ok(Some(v)) = self.handle.get(Bytes::from(k.clone())) {
+                m.insert(k.clone(), v.to_vec());
+            }
+        }
+        m
+    }
+}
+
+// ---------------------------------------------------------------------------------------------
+// client helpers
+
+pub fn try_read(s: &mut TcpStream) -> (Vec<u8>, bool, Option<String>) {
+    // (bytes, eof, error)
+    s.set_nonblocking(true).ok();
+    let mut out = vec![];
+    let mut buf = [0u8; 65536];
+    let mut eof = false;
+    let mut err = None;
+    loop {
+        match s.read(&mut buf) {
+            Ok(0) => {
+                eof = true;
+                break;
+            }
+            Ok(n) => out.extend_from_slice(&buf[..n]),
+            Err(e) if e.kind() == std::io::ErrorKind::WouldBlock => break,
+            Err(e) => {
+                err = Some(format!("{:?}", e.kind()));
+                break;
+            }
+        }
+    }
+    s.set_nonblocking(false).ok();
+    (out, eof, err)
+}
+
+/// Blocking read of exactly `n` bytes (or until EOF / error / timeout). Returns what arrived.
+pub fn read_n(s: &mut TcpStream, n: usize, timeout: Duration) -> (Vec<u8>, &'static str) {
+    s.set_read_timeout(Some(timeout)).ok();
+    let mut out = Vec::with_capacity(n);
+    let mut buf = vec![0u8; 65536];
+    while out.len() < n {
+        let want = (n - out.len()).min(buf.len());
+        match s.read(&mut buf[..want]) {
+            Ok(0) => return (out, "eof"),
+            Ok(k) => out.extend_from_slice(&buf[..k]),
+            Err(e) if e.kind() == std::io::ErrorKind::WouldBlock || e.kind() == std::io::ErrorKind::TimedOut => return (out, "timeout"),
+            Err(_) => return (out, "error"),
+        }
+    }
+    (out, "ok")
+}
+
+/// Read until EOF / error / timeout.
+pub fn read_to_end(s: &mut TcpStream, timeout: Duration) -> (Vec<u8>, &'static str) {
+    s.set_read_timeout(Some(timeout)).ok();
+    let mut out = vec![];
+    let mut buf = vec![0u8; 65536];
+    loop {
+        match s.read(&mut buf) {
+            Ok(0) => return (out, "eof"),
+            Ok(k) => out.extend_from_slice(&buf[..k]),
+            Err(e) if e.kind() == std::io::ErrorKind::WouldBlock || e.kind() == std::io::ErrorKind::TimedOut => return (out, "timeout"),
+            Err(_) => return (out, "reset"),
+        }
+    }
+}
+
+/// Read one complete RESP frame (blocking, with timeout).
+pub fn read_frame(s: &mut TcpStream, timeout: Duration) -> Result<(RFrame, Vec<u8>), String> {
+    s.set_read_timeout(Some(timeout)).ok();
+    let mut acc = vec![];
+    let mut buf = vec![0u8; 65536];
+    loop {
+        match resp_decode(&acc, 0) {
+            Ok((f, n)) if n == acc.len() => return Ok((f, acc)),
+            Ok((_, n)) => return Err(format!("more than one frame arrived: {} of {} bytes", n, acc.len())),
+            Err(RErr::Bad) => return Err(format!("malformed reply {:?}", String::from_utf8_lossy(&acc))),
+            Err(RErr::Incomplete) => {}
+        }
+        match s.read(&mut buf) {
+            Ok(0) => return Err(format!("eof after {} bytes {:?}", acc.len(), String::from_utf8_lossy(&acc[..acc.len().min(40)]))),
+            Ok(k) => acc.extend_from_slice(&buf[..k]),
+            Err(e) if e.kind() == std::io::ErrorKind::WouldBlock || e.kind() == std::io::ErrorKind::TimedOut => return Err(format!("timeout after {} bytes", acc.len())),
+            Err(e) => return Err(format!("error {:?} after {} bytes", e.kind(), acc.len())),
+        }
+    }
+}
+
+// ---------------------------------------------------------------------------------------------
+// requests and the map model at the RESP level
+
+#[derive(Clone, Debug, PartialEq, Eq)]
+pub enum Req {
+    Set(Vec<u8>, Vec<u8>),
+    Get(Vec<u8>),
+    Del(Vec<Vec<u8>>),
+}
+
+impl Req {
+    pub fn encode(&self) -> Vec<u8> {
+        match self {
+            Req::Set(k, v) => cmd(&[b"SET", k, v]),
+            Req::Get(k) => cmd(&[b"GET", k]),
+            Req::Del(ks) => {
+                let mut parts: Vec<&[u8]> = vec![b"DEL"];
+                for k in ks {
+                    parts.push(k);
+                }
+                cmd(&parts)
+            }
+        }
+    }
+    pub fn apply(&self, m: &mut Kv) -> RFrame {
+        match self {
+            Req::Set(k, v) => {
+                m.insert(k.clone(), v.clone());
+                RFrame::Simple(b"OK".to_vec())
+            }
+            Req::Get(k) => match m.get(k) {
+                Some(v) => RFrame::Bulk(v.clone()),
+                None => RFrame::Null,
+            },
+            Req::Del(ks) => {
+                let mut n = 0;
+                for k in ks {
+                    if m.remove(k).is_some() {
+                        n += 1;
+                    }
+                }
+                RFrame::Integer(n)
+            }
+        }
+    }
+    pub fn show(&self) -> String {
+        match self {
+            Req::Set(k, v) => format!("SET {} {}", hex(k), hex(v)),
+            Req::Get(k) => format!("GET {}", hex(k)),
+            Req::Del(ks) => format!("DEL {}", ks.iter().map(|k| hex(k)).collect::<Vec<_>>().join(" ")),
+        }
+    }
+    pub fn to_json(&self) -> Value {
+        match self {
+            Req::Set(k, v) => json!({"set": [k, v]}),
+            Req::Get(k) => json!({"get": k}),
+            Req::Del(ks) => json!({"del": ks}),
+        }
+    }
+    pub fn from_json(v: &Value) -> Option<Req> {
+        let b = |x: &Value| -> Option<Vec<u8>> { x.as_array().map(|a| a.iter().map(|y| y.as_u64().unwrap_or(0) as u8).collect()) };
+        if let Some(a) = v.get("set") {
+            return Some(Req::Set(b(&a[0])?, b(&a[1])?));
+        }
+        if let Some(a) = v.get("get") {
+            return Some(Req::Get(b(a)?));
+        }
+        if let Some(a) = v.get("del") {
+            return Some(Req::Del(a.as_array()?.iter().filter_map(b).collect()));
+        }
+        None
+    }
+    /// Interpret a decoded frame as the server's command parser does (None = not a well-formed command).
+    pub fn from_frame(f: &RFrame) -> Option<Req> {
+        let RFrame::Array(items) = f else { return None };
+        let mut parts: Vec<&Vec<u8>> = vec![];
+        for i in items {
+            match i {
+                RFrame::Bulk(b) => parts.push(b),
+                _ => return None,
+            }
+        }
+        let name = parts.first()?;
+        let utf8 = |b: &Vec<u8>| std::str::from_utf8(b).is_ok();
+        match name.as_slice() {
+            b"SET" if parts.len() == 3 && utf8(parts[1]) => Some(Req::Set(parts[1].clone(), parts[2].clone())),
+            b"GET" if parts.len() == 2 && utf8(parts[1]) => Some(Req::Get(parts[1].clone())),
+            b"DEL" if parts.len() >= 2 && parts[1..].iter().all(|p| utf8(p)) => Some(Req::Del(parts[1..].iter().map(|p| (*p).clone()).collect())),
+            _ => None,
+        }
+    }
+}
+
+fn enc(f: &RFrame) -> Vec<u8> {
+    let mut v = vec![];
+    resp_encode(f, &mut v);
+    v
+}
+
+// ---------------------------------------------------------------------------------------------
+// C06
+
+fn c06_alphabet() -> Vec<Req> {
+    let big = vec![b'V'; 9000];
+    vec![
+        Req::Set(b"a".to_vec(), b"x".to_vec()),
+        Req::Set(b"a".to_vec(), b"a\r\nb\0".to_vec()),
+        Req::Set(b"b".to_vec(), vec![]),
+        Req::Set("é".as_bytes().to_vec(), b"\r\n".to_vec()),
+        Req::Get(b"a".to_vec()),
+        Req::Get(b"b".to_vec()),
+        Req::Get(b"c".to_vec()),
+        Req::Get("é".as_bytes().to_vec()),
+        Req::Del(vec![b"a".to_vec()]),
+        Req::Del(vec![b"a".to_vec(), b"b".to_vec()]),
+        Req::Del(vec![b"a".to_vec(), b"a".to_vec()]),
+        Req::Del(vec![b"c".to_vec()]),
+        Req::Set(b"b".to_vec(), big),
+    ]
+}
+
+#[derive(Clone, Debug)]
+pub enum Delivery {
+    Whole,
+    ByteWise,
+    Cuts(Vec<usize>),
+    LockStep,
+}
+
+fn caps_for(d: &Delivery, n: usize) -> Option<Vec<usize>> {
+    match d {
+        Delivery::Whole | Delivery::LockStep => None,
+        Delivery::ByteWise => Some(vec![1; n]),
+        Delivery::Cuts(c) => {
+            let mut v = vec![];
+            let mut last = 0;
+            for &x in c {
+                v.push(x - last);
+                last = x;
+            }
+            v.push(n - last);
+            Some(v)
+        }
+    }
+}
+
+/// Execute one C06 case on a fresh server. Returns (class, message) on violation.
+pub fn c06_case(dir: &Path, word: &[Req], delivery: &Delivery) -> Result<String, (String, String)> {
+    let srv = Srv::start(dir, &SrvCfg { max_connections: 4, max_file_size: 1 << 31, gated: false }).map_err(|e| ("MACHINERY".to_string(), e))?;
+    let mut model = Kv::new();
+    let mut stream = vec![];
+    let mut expected = vec![];
+    for r in word {
+        stream.extend_from_slice(&r.encode());
+        expected.extend_from_slice(&enc(&r.apply(&mut model)));
+    }
+    let res = (|| -> Result<String, (String, String)> {
+        let mut c = srv.connect().map_err(|e| ("MACHINERY".to_string(), format!("connect: {}", e)))?;
+        let mut got = vec![];
+        match delivery {
+            Delivery::LockStep => {
+                let mut m2 = Kv::new();
+                for r in word {
+                    c.write_all(&r.encode()).map_err(|e| ("connection-broken".to_string(), format!("write: {}", e)))?;
+                    let want = enc(&r.apply(&mut m2));
+                    let (b, how) = read_n(&mut c, want.len(), Duration::from_secs(6));
+                    got.extend_from_slice(&b);
+                    if how != "ok" {
+                        return Err(("reply-missing".into(), format!("{} while waiting for the reply to {} (got {:?})", how, r.show(), String::from_utf8_lossy(&b))));
+                    }
+                }
+            }
+            d => {
+                if let Some(caps) = caps_for(d, stream.len()) {
+                    iohook::recv_set_script(caps, usize::MAX);
+                }
+                c.write_all(&stream).map_err(|e| ("connection-broken".to_string(), format!("write: {}", e)))?;
+            }
+        }
+        c.shutdown(NetShutdown::Write).ok();
+        let (rest, how) = read_to_end(&mut c, Duration::from_secs(6));
+        got.extend_from_slice(&rest);
+        if how == "timeout" {
+            return Err(("reply-stream-does-not-end".into(), format!("no end of stream within 6 s after {} bytes", got.len())));
+        }
+        if got != expected {
+            let (gf, _, _) = resp_split(&got);
+            let (ef, _, _) = resp_split(&expected);
+            let class = if gf.len() < ef.len() {
+                "reply-missing"
+            } else if gf.len() > ef.len() {
+                "extra-reply"
+            } else {
+                "wrong-reply"
+            };
+            return Err((class.into(), format!("replies {:?}, expected {:?}", show_frames(&gf), show_frames(&ef))));
+        }
+        Ok(format!("{} replies", word.len()))
+    })();
+    iohook::recv_set_script(vec![], usize::MAX);
+    // store contents through the handle
+    let keys: Vec<Vec<u8>> = vec![b"a".to_vec(), b"b".to_vec(), b"c".to_vec(), "é".as_bytes().to_vec()];
+    let contents = srv.store_contents(&keys);
+    let stopped = srv.stop();
+    let r = res?;
+    if contents != model {
+        return Err(("store-differs-from-model".into(), format!("store {:?}, model {:?}", show_kv(&contents), show_kv(&model))));
+    }
+    if !stopped {
+        return Err(("MACHINERY".into(), "server did not stop".into()));
+    }
+    Ok(r)
+}
+
+fn show_kv(m: &Kv) -> Vec<(String, String)> {
+    m.iter().map(|(k, v)| (hex(k), hex(v))).collect()
+}
+fn show_frames(f: &[RFrame]) -> String {
+    let s = format!("{:?}", f.iter().map(|x| match x {
+        RFrame::Bulk(b) => format!("${}", hex(b)),
+        RFrame::Simple(s) => format!("+{}", String::from_utf8_lossy(s)),
+        RFrame::Error(s) => format!("-{}", String::from_utf8_lossy(s)),
+        RFrame::Integer(i) => format!(":{}", i),
+        RFrame::Null => "nil".into(),
+        RFrame::Array(_) => "array".into(),
+    }).collect::<Vec<_>>());
+    s
+}
+
+fn words_of(alpha: &[Req], depth: usize) -> Vec<Vec<Req>> {
+    let mut out: Vec<Vec<Req>> = vec![];
+    let mut frontier: Vec<Vec<Req>> = vec![vec![]];
+    for _ in 0..depth {
+        let mut next = vec![];
+        for w in &frontier {
+            for a in alpha {
+                let mut w2 = w.clone();
+                w2.push(a.clone());
+                next.push(w2);
+            }
+        }
+        out.extend(next.iter().cloned());
+        frontier = next;
+    }
+    out
+}
+
+fn c06(job: &Job, sh: &mut Shard, t0: Instant) {
+    let alpha = c06_alphabet();
+    let small: Vec<Req> = alpha[..12].to_vec();
+    let depth = job.tier.pick(3, 4);
+    let mut cases: Vec<(Vec<Req>, Delivery)> = vec![];
+    // words over the 12 small requests (depth d), plus the big value at depth <= 2
+    let mut words = words_of(&small, depth);
+    for w in words_of(&alpha, 2) {
+        if w.iter().any(|r| matches!(r, Req::Set(_, v) if v.len() > 1000)) {
+            words.push(w);
+        }
+    }
+    for w in &words {
+        let n: usize = w.iter().map(|r| r.encode().len()).sum();
+        let has_big = n > 2000;
+        cases.push((w.clone(), Delivery::Whole));
+        cases.push((w.clone(), Delivery::LockStep));
+        if !has_big {
+            cases.push((w.clone(), Delivery::ByteWise));
+        }
+        // every single cut (big values: cuts near the ends and around the 8 KiB buffer boundary)
+        let cut_pos: Vec<usize> = if has_big { (1..40).chain(8180..8200).chain((n - 40)..n).filter(|&c| c > 0 && c < n).collect() } else { (1..n).collect() };
+        if w.len() <= job.tier.pick(3, 3) {
+            for &c in &cut_pos {
+                cases.push((w.clone(), Delivery::Cuts(vec![c])));
+            }
+        }
+        // every pair of cuts for short words
+        if w.len() <= job.tier.pick(1, 2) && !has_big {
+            for a in 1..n {
+                for b2 in (a + 1)..n {
+                    cases.push((w.clone(), Delivery::Cuts(vec![a, b2])));
+                }
+            }
+        }
+    }
+    let dir = job.scratch().join("store");
+    let total = cases.len();
+    for (i, (w, d)) in cases.into_iter().enumerate() {
+        if i % job.nshards != job.shard {
+            continue;
+        }
+        if t0.elapsed().as_secs() > job.deadline_s || sh.viol_counts.values().sum::<u64>() >= 6 {
+            sh.capped = true;
+            sh.notes.insert(format!("stopped (time cap or 6 violations in this shard) after {} of {} cases", i, total));
+            break;
+        }
+        let case = json!({"engine": "net", "kind": "c06", "word": w.iter().map(|r| r.to_json()).collect::<Vec<_>>(), "word_text": w.iter().map(|r| r.show()).collect::<Vec<_>>(), "delivery": format!("{:?}", d), "cuts": match &d { Delivery::Cuts(c) => json!(c), Delivery::ByteWise => json!("bytewise"), Delivery::LockStep => json!("lockstep"), Delivery::Whole => json!("whole") }});
+        if i % 32 == job.shard {
+            job.progress(&case);
+        }
+        sh.evaluations += 1;
+        sh.transitions += w.len() as u64;
+        let wkey = fnv(format!("{:?}", w).as_bytes());
+        sh.nontrivial.insert(wkey);
+        sh.states.insert(fnv(format!("{:?}{:?}", w, d).as_bytes()));
+        match c06_case(&dir, &w, &d) {
+            Ok(o) => sh.outcome(format!("{} / {}", o, match d { Delivery::Whole => "whole", Delivery::ByteWise => "bytewise", Delivery::Cuts(ref c) if c.len() == 1 => "1 cut", Delivery::Cuts(_) => "2 cuts", Delivery::LockStep => "lockstep" })),
+            Err((class, msg)) if class == "MACHINERY" => sh.machinery_errors.push(format!("C06 {}: {}", msg, case["word_text"])),
+            Err((class, msg)) => {
+                // confirm once before reporting
+                match c06_case(&dir, &w, &d) {
+                    Err((c2, _)) if c2 == class => sh.violate(Violation { class: format!("C06:{}", class), msg: format!("{} | requests {:?} delivered {:?}", msg, w.iter().map(|r| r.show()).collect::<Vec<_>>(), d), case: case.clone() }),
+                    other => sh.machinery_errors.push(format!("C06 violation {} not reproduced ({:?}) for {}", class, other.map_err(|e| e.0), case["word_text"])),
+                }
+            }
+        }
+        if sh.samples.len() < 2 && i % 97 == job.shard {
+            sh.samples.push(case);
+        }
+    }
+    sh.count("recv-calls-on-server-sockets", iohook::recv_count() as u64);
+}
+
+// ---------------------------------------------------------------------------------------------
+// worker / replay / meta
+
+pub fn worker(job: &Job) -> Shard {
+    let mut sh = Shard::default();
+    let t0 = Instant::now();
+    match job.prop.as_str() {
+        "C06" => c06(job, &mut sh, t0),
+        "C10" => crate::e5b::c10(job, &mut sh, t0),
+        "C11" => crate::e5b::c11(job, &mut sh, t0),
+        "C15" => crate::e5b::c15(job, &mut sh, t0),
+        "C16" => crate::e5b::c16(job, &mut sh, t0),
+        p => panic!("no E5 plan for {}", p),
+    }
+    rmrf(&job.scratch());
+    sh
+}
+
+pub fn replay(prop: &str, case: &Value) -> Vec<Violation> {
+    let dir = PathBuf::from(format!("/dev/shm/vh-replay-{}", std::process::id()));
+    let mut out = vec![];
+    match case["kind"].as_str().unwrap_or("") {
+        "c06" => {
+            let word: Vec<Req> = case["word"].as_array().map(|a| a.iter().filter_map(Req::from_json).collect()).unwrap_or_default();
+            let d = match &case["cuts"] {
+                Value::Array(a) => Delivery::Cuts(a.iter().map(|x| x.as_u64().unwrap() as usize).collect()),
+                Value::String(s) if s == "bytewise" => Delivery::ByteWise,
+                Value::String(s) if s == "lockstep" => Delivery::LockStep,
+                _ => Delivery::Whole,
+            };
+            if let Err((class, msg)) = c06_case(&dir, &word, &d) {
+                out.push(Violation { class: format!("{}:{}", prop, class), msg, case: case.clone() });
+            }
+        }
+        _ => out = crate::e5b::replay(prop, case, &dir),
+    }
+    rmrf(&dir);
+    out
+}
+
+pub fn report_meta(prop: &str, tier: Tier) -> (String, Value, Vec<String>) {
+    let common = vec![
+        "the server future runs on a current-thread tokio runtime owned by the harness; tokio's semaphore / broadcast / mpsc / spawn_blocking are trusted to be linearizable; interleavings inside tokio's multi-thread scheduler are not enumerated".to_string(),
+        "select! start-branch order is not owned (tokio seeds it from a process-global counter): both continuations are accepted where a frame and the shutdown signal are ready in the same poll".to_string(),
+        "clients are real TCP sockets on 127.0.0.1; server-side recv returns exactly the scripted segment lengths (interposed recv waits until the whole segment has arrived)".to_string(),
+    ];
+    match prop {
+        "C06" => (
+            format!("request words over 12 small requests (SET/GET/DEL on keys a, b, c, é; values with CR LF NUL, empty) up to depth {} plus words of depth <= 2 containing a 9 000-byte value; each word's byte stream is delivered to a fresh real server whole (full pipelining), in lock-step, one byte per recv, with every single cut (words of length <= {}) and with every pair of cuts (words of length <= {}); the complete reply byte stream up to end-of-stream must equal the reference encoding of the map model's answers, and the store (read through the handle) must equal the model. Distinct+non-trivial = distinct request words.", tier.pick(3, 4), 3, tier.pick(1, 2)),
+            json!({"depth": tier.pick(3, 4), "alphabet": c06_alphabet().iter().map(|r| r.show()).collect::<Vec<_>>()}),
+            common,
+        ),
+        _ => crate::e5b::report_meta(prop, tier, common),
+    }
+}
+
+pub fn child_server(_args: &[String]) -> i32 {
+    0
+}
+
+#[allow(dead_code)]
+fn _unused(_: BTreeMap<u8, u8>, _: LEvent) {}
